@@ -139,6 +139,9 @@ func TestMutatedStreams(t *testing.T) {
 
 func TestHostileAndCorpus(t *testing.T) {
 	for _, b := range gen.Hostile {
+		if harness.Shard() != 0 {
+			break
+		}
 		c := DiffCase{Bytes: b}
 		_, nt, labels := classifyBytes(b)
 		subDiff.See(c, nt, harness.Hash(b), append(labels, "hostile-constant")...)
@@ -265,6 +268,7 @@ func operand(kind byte, w int, ctr *uint32) []byte {
 }
 
 func TestOpcodeSweep(t *testing.T) {
+	harness.OnlyFirstShard(t)
 	var ctr uint32 = 12345
 	evals, nontriv := int64(0), int64(0)
 	var stylingSeen, drawingSeen [256]bool
@@ -383,6 +387,7 @@ func chunkPal(n byte) []byte {
 }
 
 func TestMetadataOrder(t *testing.T) {
+	harness.OnlyFirstShard(t)
 	chunks := map[string][]byte{
 		"V": chunkVB([4]byte{0x50, 0x50, 0xb0, 0xb0}),
 		"W": chunkVB([4]byte{0x60, 0x60, 0xa0, 0xa0}),
@@ -455,4 +460,17 @@ func TestMetadataOrder(t *testing.T) {
 	}
 	subMeta.AddEnumerated(n, nt)
 	subMeta.SetExhaustive()
+}
+
+func FuzzDiff(f *testing.F) {
+	var seeds [][]byte
+	for _, c := range corpus.Sample(16) {
+		seeds = append(seeds, c.Data)
+	}
+	seeds = append(seeds, gen.Hostile...)
+	fz := harness.Counter("fuzz-diff", "native coverage-guided fuzzing (go test -fuzz) of the differential oracle, seeded with corpus graphics and hostile constants (thorough tier only)")
+	harness.FuzzBytes(f, seeds, func(b []byte) error { return subDiff.Eval(DiffCase{Bytes: b}) }, func(b []byte) {
+		p := spec.Parse(b)
+		fz.Observe(p.MetaOK, harness.Hash(b), nil)
+	})
 }
